@@ -155,7 +155,7 @@ def fill_case(draw, max_dim=3, max_fills=30, max_edges=12):
             w = draw(st.integers(-64, 64)) / 8.0
         fills.append([c, w])
     return {"edges": edges, "fills": fills, "wkind": wkind,
-            "coord_as": draw(st.sampled_from(["list", "tuple"]))}
+            "coord_as": draw(st.sampled_from(["list", "tuple", "same_list"]))}
 
 
 def _ref_index(edges, c):
@@ -202,6 +202,7 @@ def _judge_fill(case):
     total = 0
     classes = ["dim=%d" % dim, "w=" + case["wkind"]]
     n_out = 0
+    point = []      # coord_as == "same_list": the caller keeps one list and changes it in place before every fill
     for c, w in case["fills"]:
         w = _dec_w(w)
         exp_idx = _ref_index(edges, c)
@@ -212,6 +213,9 @@ def _judge_fill(case):
                 raise Violation("bin-index-differs-from-bisect",
                                 "get_bin_on_value_1d(%r, %r) = %r, expected %r" % (v, e, got, ei))
         arg = c[0] if dim == 1 else (tuple(c) if case["coord_as"] == "tuple" else list(c))
+        if dim > 1 and case["coord_as"] == "same_list":
+            point[:] = c
+            arg = point
         got = get_bin_on_value(arg, hedges)
         if list(got) != exp_idx:
             raise Violation("md-bin-index-differs-from-bisect",
